@@ -183,7 +183,7 @@ def loadSession (toks : List String) : SessRes :=
                     some (some { toi := toi, scheme := oti.sch, ks := ks, blen := blen, p := oti.p,
                                  inbandFti := oti.ifti, transfers := m, carousel := car != "-",
                                  noCache := cc == "nocache",
-                                 streamSrc := src == "stream" || src == "file" || src == "sparse",
+                                 streamSrc := src == "stream" || src == "streamoff" || src == "file" || src == "sparse",
                                  -- datagram lengths (input: header sizes are not modelled)
                                  pktLen := ((look kv "pl").bind (·.toNat?)).getD 0,
                                  lastPktLen := ((look kv "pll").bind (·.toNat?)).getD 0 }, true, ref)
